@@ -381,17 +381,41 @@ class _C19(object):
         els = None
         if r.random() < 0.5:
             els = self.simple(ctx)
-        # nested IF as the last statement of a branch (the inner one gets an ELSE when the outer has one)
-        if r.random() < 0.2 and then[-1][0] == 'print':
-            inner_else = self.simple(ctx) if (els is not None or r.random() < 0.5) else None
-            then.append(['if', self.cond(ctx), self.simple(ctx), inner_else, ''])
-            self.feat('nested_if')
-        elif els is not None and r.random() < 0.15 and els[-1][0] == 'print':
-            els.append(['if', self.cond(ctx), self.simple(ctx), self.simple(ctx) if r.random() < 0.5 else None, ''])
-            self.feat('nested_if')
+        # nested IF as the last statement of a branch, in every form (THEN stmts / THEN line / GOTO line),
+        # with and without ELSE at every level. An IF that is followed on the line by the ELSE of an
+        # enclosing IF must have an ELSE of its own (an ELSE pairs with the nearest unmatched IF).
+        if r.random() < 0.3 and then[-1][0] == 'print':
+            then.append(self.nested_if(ctx, 1, need_else=els is not None))
+        if els is not None and r.random() < 0.2 and els[-1][0] == 'print':
+            els.append(self.nested_if(ctx, 1, need_else=False))
         out.append(['if', c, then, els, ''])
         self.feat('if')
         self.est += 2 * ctx['mult']
+
+    def nested_if(self, ctx, level, need_else):
+        r = self.rng
+        self.feat('nested_if')
+        self.features['max_if_nesting'] = max(self.features.get('max_if_nesting', 0), level + 1)
+        c = self.cond(ctx)
+        has_else = need_else or r.random() < 0.5
+        style = r.choice(['', '', 'line', 'goto'])
+        if style:
+            t = self.jump_label(ctx)
+            then = [['goto', t]]
+            self.feat('nested_if_' + style + '_form')
+        else:
+            then = self.simple(ctx, allow_jump=r.random() < 0.5)
+            if level < 3 and r.random() < 0.3 and then[-1][0] == 'print':
+                then.append(self.nested_if(ctx, level + 1, need_else=has_else))
+        els = None
+        if has_else:
+            if style == 'line' and r.random() < 0.4:
+                els = [['goto', self.jump_label(ctx)]]          # ELSE line
+            else:
+                els = self.simple(ctx, allow_jump=r.random() < 0.5)
+                if level < 3 and r.random() < 0.3 and els[-1][0] == 'print':
+                    els.append(self.nested_if(ctx, level + 1, need_else=need_else))
+        return ['if', c, then, els, style]
 
     def jump_label(self, ctx):
         r = self.rng
@@ -794,8 +818,12 @@ FN_BODIES = [
 ]
 
 
-def _c21_fault(r, feats, armed, control=True, fns=()):
+def _c21_fault(r, feats, armed, control=True, fns=(), stub=None):
     """One failing statement; `armed` tells whether a trap is certainly set (1/0 allowed)."""
+    if stub is not None and control and r.random() < 0.06:
+        # GOTO / GOSUB into handler code: its RESUME is met without an error
+        feats['jump_into_handler_code'] = feats.get('jump_into_handler_code', 0) + 1
+        return [[r.choice(['goto', 'gosub']), '@%d' % stub]]
     if fns and r.random() < 0.2:
         name = r.choice(fns)
         feats['fault_in_def_fn_body'] = feats.get('fault_in_def_fn_body', 0) + 1
@@ -862,6 +890,8 @@ def gen_c21(rng):
         items.append(('label', label()))
         feats['def_fn_lines'] = len(fns)
 
+    stub = label() if r.random() < 0.5 else None
+
     def P(p, extra=()):
         return ['print', tag(p), list(extra)]
 
@@ -878,7 +908,7 @@ def gen_c21(rng):
                     feats['gosub_to_faulting_sub'] = feats.get('gosub_to_faulting_sub', 0) + 1
                 elif q < 0.3:
                     # failing statement inside a THEN / ELSE branch
-                    br = [P('b')] + _c21_fault(r, feats, armed, depth == 0, fns) + [P('b')]
+                    br = [P('b')] + _c21_fault(r, feats, armed, depth == 0, fns, stub) + [P('b')]
                     other = [P('c')] if r.random() < 0.5 else None
                     if r.random() < 0.5:
                         out.append(['if', ['=', 'C%', 'C%'], br, other, ''])
@@ -887,7 +917,7 @@ def gen_c21(rng):
                     feats['fault_in_if_branch'] = feats.get('fault_in_if_branch', 0) + 1
                     return out
                 else:
-                    out.extend(_c21_fault(r, feats, armed, depth == 0, fns))
+                    out.extend(_c21_fault(r, feats, armed, depth == 0, fns, stub))
             else:
                 out.append(P(where[0]))
         return out
@@ -930,7 +960,10 @@ def gen_c21(rng):
             items.append(('label', lab))
             items.append(P('m'))
         items.append(P('m'))
-        items.append(['end'])
+        if nsub == 0 and r.random() < 0.12:
+            feats['main_runs_into_handler'] = 1        # RESUME met without an error, possibly with the trap armed
+        else:
+            items.append(['end'])
     else:
         for lab in main_labels:
             items.append(('label', lab))
@@ -988,14 +1021,22 @@ def gen_c21(rng):
             items.append(P('g'))
             items.append(['return'])
             form = 'gosub_in_handler'
-        elif k < 0.975:
+        elif k < 0.965:
             # re-executes for ever when the fault cannot go away: ends by the step budget
             items.append(['resume', r.choice([None, 0])])
             form = 'same_unbounded'
+        elif k < 0.985:
+            # no RESUME: runs on into the next handler, or off the end of the program (No RESUME)
+            items.append(P('n'))
+            form = 'without_resume'
         else:
             items.append(['end'])
             form = 'end'
         feats['handler_' + form] = feats.get('handler_' + form, 0) + 1
+    if stub is not None:
+        items.append(('label', stub))
+        items.append(P('z'))
+        items.append(['resume', r.choice([None, 0, 'next', '@%d' % main_labels[0]])])
     direct = None
     if direct_mode:
         direct = []
@@ -1028,7 +1069,15 @@ _UNQ = 'abcdefghijklmnopqrstuvwxyzABCDEFGHIJKLMNOPQRSTUVWXYZ'
 def _c22_item(r, want=None):
     """One DATA item: [raw text, string reading | None, numeric reading | None]."""
     k = want or r.choice(['int', 'int', 'dec', 'exp', 'dbl', 'suffix', 'radix', 'quoted', 'quoted',
-                          'unquoted', 'unquoted', 'empty', 'padded'])
+                          'unquoted', 'unquoted', 'empty', 'padded', 'partial', 'bigint'])
+    if k == 'partial':
+        # starts like a number: still not a numeric item
+        raw = r.choice(['12abc', '7x', '3.5z', '-4q', '1E2k'])
+        return [raw, raw, None]
+    if k == 'bigint':
+        # fine for single / double targets, beyond the range of an integer variable
+        v = r.choice([40000, 65535, -40000, 32768, -32769, 100000])
+        return ['%d' % v, '%d' % v, v]
     if k == 'int':
         v = r.choice([0, 1, -1, 7, 42, -17, 255, 256, 1000, 32767, -32768, r.randint(-999, 999)])
         raw = '%d' % v
@@ -1133,16 +1182,19 @@ def gen_c22(rng):
     ptr = 0
     lines = []
     ended = False
-    trap = r.random() < 0.15
+    trap = r.random() < 0.35
+    # what the handler does after a failed READ: stop, or go on (then the same item must be delivered again)
+    trap_form = r.choice(['end', 'next', 'next', 'next', 'line']) if trap else None
+    resuming = trap_form in ('next', 'line')
     num_vars = ['A%', 'B%', 'X', 'Y!', 'D#', 'N']
     str_vars = ['S$', 'T$', 'U$']
 
     def choose_target(item, force_string=False):
         raw, sval, nval = item
         if force_string or nval is None:
-            if nval is None and not force_string and r.random() < 0.08:
+            if nval is None and not force_string and r.random() < (0.25 if resuming else 0.08):
                 feats['type_error_planned'] = feats.get('type_error_planned', 0) + 1
-                return r.choice(num_vars), True
+                return r.choice(['BN', 'B9%', 'BD#']), True
             t = r.choice(str_vars)
             if r.random() < 0.15:
                 return ['arr', 'R$', r.randint(0, 5)], False
@@ -1150,6 +1202,9 @@ def gen_c22(rng):
         if r.random() < 0.25:
             return r.choice(str_vars), False
         f = Fraction(nval)
+        if not (-32768 <= f <= 32767) and r.random() < (0.5 if resuming else 0.15):
+            feats['integer_overflow_planned'] = feats.get('integer_overflow_planned', 0) + 1
+            return 'B9%', True
         cands = ['X', 'Y!', 'D#', 'N']
         if -32768 <= f <= 32767 and (f.denominator == 1 or (f * 4).denominator == 1 and (f * 2).denominator != 1):
             cands += ['A%', 'B%', 'A%']
@@ -1192,6 +1247,7 @@ def gen_c22(rng):
         elif k == 'read':
             cnt = r.choice([1, 1, 2, 3])
             targets = []
+            failed = False
             for _ in range(cnt):
                 if ptr >= len(order):
                     targets.append(r.choice(num_vars + str_vars))
@@ -1201,11 +1257,16 @@ def gen_c22(rng):
                 t, bad = choose_target(order[ptr][1])
                 targets.append(t)
                 if bad:
-                    ended = True
+                    failed = True
+                    if resuming:
+                        # the READ fails, the handler resumes: the item stays where it is
+                        feats['failed_read_then_resumed'] = feats.get('failed_read_then_resumed', 0) + 1
+                    else:
+                        ended = True
                     break
                 ptr += 1
             stmts.append(['read', targets])
-            if not ended:
+            if not ended and not failed:
                 stmts.append(['print', tag('r'), [pitem(t) for t in targets]])
             else:
                 stmts.append(['print', tag('x'), []])
@@ -1265,7 +1326,21 @@ def gen_c22(rng):
     if tail_data is not None:
         lines.append([tailnum, [['data', tail_data]]])
     if trap:
-        lines.append([handler_line, [['print', tag('h'), [['err'], ['erl']]], ['end']]])
+        h = [['print', tag('h'), [['err'], ['erl']]]]
+        if trap_form == 'end':
+            h.append(['end'])
+        else:
+            # (bounded: a READ that fails again and again must not spin for ever)
+            h.append(['let', 'C9%', ['+', 'C9%', 1]])
+            h.append(['if', ['>', 'C9%', 8], [['end']], None, ''])
+            if trap_form == 'line':
+                lines.append([handler_line, h])
+                h = [['if', ['>', 'C9%', 2], [['resume', 'next']], [['resume', r.choice(nums)]], '']]
+                handler_line += 5
+            else:
+                h.append(['resume', 'next'])
+        feats['handler_' + trap_form] = 1
+        lines.append([handler_line, h])
     lines.sort(key=lambda l: l[0])
     prog = {'lines': lines, 'direct': None, 'features': feats}
     return prog
